@@ -339,7 +339,9 @@ func genName(r *rng) string {
 }
 
 func genSetPattern(r *rng) string {
-	pats := []string{"*", "**", "*.go", "**/*.go", "src/**", "src/*", "a*", "?", "??", "*/*", "vendor", "src/gen*", "**/a", "a.go", "\\*", "*.md", "g.?", "a[1]", ".*", "**/gen/**", "src", "x/**", "lib/?*", "é"}
+	pats := []string{"*", "**", "*.go", "**/*.go", "src/**", "src/*", "a*", "?", "??", "*/*", "vendor", "src/gen*", "**/a", "a.go", "\\*", "*.md", "g.?", "a[1]", ".*", "**/gen/**", "src", "x/**", "lib/?*", "é",
+		// `?` opposite a separator, escapes without any wildcard, patterns that differ only in spelling
+		"src?a", "a?b", "?/?", "src?*", "lib?x?a.go", "???", "a\\[1\\]", "a\\[1]", "x|y", "a b", "src?gen?a"}
 	if r.below(4) == 0 {
 		return genName(r) + "/" + pats[r.below(len(pats))]
 	}
@@ -377,6 +379,35 @@ func selectTree(r *rng, tmp string, idx int) {
 		}
 		for j, n := 0, r.below(3); j < n; j++ {
 			c.exc = append(c.exc, genSetPattern(r))
+		}
+		qs = append(qs, c)
+	}
+	// directed queries derived from the files that exist, so that matches across separators are not rare:
+	// a nested file's own path with its separators (or other characters) replaced by `?`, and no `**` in the list
+	var nested []string
+	filepath.WalkDir(root, func(path string, d fs.DirEntry, err error) error {
+		if err == nil && !d.IsDir() && strings.Contains(path[len(root)+1:], "/") {
+			nested = append(nested, filepath.ToSlash(path[len(root)+1:]))
+		}
+		return nil
+	})
+	sort.Strings(nested)
+	for i := 0; i < 3 && len(nested) > 0; i++ {
+		f := nested[r.below(len(nested))]
+		g := strings.NewReplacer("\\", "\\\\", "[", "\\[", "]", "\\]", "*", "\\*").Replace(f)
+		switch i {
+		case 0:
+			g = strings.ReplaceAll(g, "/", "?")
+		case 1:
+			g = strings.Replace(g, "/", "?", 1)
+		default:
+			if k := strings.LastIndex(g, "/"); k >= 0 {
+				g = g[:k] + "?*"
+			}
+		}
+		c := q{inc: []string{g}}
+		if r.below(2) == 0 {
+			c.inc = append(c.inc, genName(r))
 		}
 		qs = append(qs, c)
 	}
@@ -481,13 +512,14 @@ func ignoreTree(r *rng, tmp string, idx int) {
 		depth := 1 + r.below(3)
 		parts := []string{}
 		for d := 0; d < depth; d++ {
-			parts = append(parts, []string{"a", "b", "src", "gen", "vendor", "x.d", "lib"}[r.below(7)])
+			parts = append(parts, []string{"a", "b", "src", "gen", "vendor", "x.d", "lib", "s[1]", "we\\ird"}[r.below(9)])
 			dirs[strings.Join(parts, "/")] = true
 		}
 	}
 	var ign []string
 	for j, n := 0, 1+r.below(3); j < n; j++ {
-		ign = append(ign, []string{"vendor", "*", "**/gen", "src/*", "a", "?", "lib/**", "*/b", "x.d", "**", "a/b", "src"}[r.below(12)])
+		igs := []string{"vendor", "*", "**/gen", "src/*", "a", "?", "lib/**", "*/b", "x.d", "**", "a/b", "src", "s\\[1\\]", "a\\[1]", "we\\\\ird", "src?s[1]", "a?b", "s[1]"}
+		ign = append(ign, igs[r.below(len(igs))])
 	}
 	var all []string
 	for d := range dirs {
